@@ -49,4 +49,12 @@ class Sketch(ElementBase):
 
     @property
     def parts(self):
-        return self.faces
+        # what is transformed with the sketch: the parts of its faces, each object once
+        # (edges of several faces can be snapped to one and the same curve)
+        parts = []
+        for face in self.faces:
+            for part in face.parts:
+                if not any(part is other for other in parts):
+                    parts.append(part)
+
+        return parts
